@@ -62,8 +62,19 @@ Open(e) == /\ "open" \in Acts /\ e \in Openers /\ CanOpen(st, e)
 OpenSend(e, s) == /\ s \in st.unsent[e] /\ Room(e) /\ Quiet(DoOpenSend(st, e, s))
 OpenReturn(e, s) == /\ OpenPending(st, e, s) /\ OpenOutcome(st, e, s) # "pending"
                     /\ Bg(DoOpenReturn(st, e, s), Step("openret", e, s, 0))
-CancelOpen(e, s) == /\ "cancel" \in Acts /\ OpenPending(st, e, s) /\ OpenOutcome(st, e, s) = "pending"
+CancelOpen(e, s) == /\ "cancel" \in Acts
+                    /\ \/ OpenPending(st, e, s) /\ OpenOutcome(st, e, s) = "pending"
+                       \/ OpenWaitsForBuffer(st, e, s)
                     /\ Api(DoCancelOpen(st, e, s), Step("cancel", e, s, 0))
+\* OpenStream while every write buffer is in flight: the call holds the openOrder semaphore and waits ("openb")
+OpenBlocked(e) == /\ "openb" \in Acts /\ e \in Openers /\ CanOpen(st, e) /\ ~Room(e) /\ st.unsent[e] = {}
+                  /\ Api(DoOpenAlloc(st, e), Step("open", e, st.nextOut[e], 0))
+\* OpenStream with an already cancelled context ("openc"); kind "oc<e>" keeps the state-preserving outcome in the export
+OpenCancelled(e) ==
+  /\ "openc" \in Acts /\ e \in Openers /\ st.unsent[e] = {}
+  /\ \/ ApiK(st, Step("openc", e, 0, 0), {KE("oc", e)})
+     \/ CanOpen(st, e) /\ ApiK(DoOpenCancelledB(st, e), Step("openc", e, 0, 0), {KE("oc", e)})
+     \/ CanOpen(st, e) /\ Room(e) /\ ApiK(DoOpenCancelledC(st, e), Step("openc", e, 0, 0), {KE("oc", e)})
 
 \* AcceptStream loops over stale entries; when the backlog runs empty it blocks (the driver's context then expires)
 RECURSIVE AcceptSet(_, _)
@@ -142,6 +153,8 @@ NOpenReturn == Can /\ \E e \in E, s \in Ids : OpenReturn(e, s)
 NOpenSend == Can /\ \E e \in E, s \in Ids : OpenSend(e, s)
 NOpen == More /\ \E e \in E : Open(e)
 NOpenExhausted == More /\ \E e \in E : OpenExhausted(e)
+NOpenBlocked == More /\ \E e \in E : OpenBlocked(e)
+NOpenCancelled == More /\ \E e \in E : OpenCancelled(e)
 NAccept == More /\ \E e \in E : Accept(e)
 NCancelOpen == More /\ \E e \in E, s \in Ids : CancelOpen(e, s)
 NCloseWrite == More /\ \E e \in E, s \in Ids : CloseWrite(e, s)
@@ -156,7 +169,7 @@ NSetWD == More /\ \E e \in E, s \in Ids, m \in Modes : SetWD(e, s, m)
 NSetRD == More /\ \E e \in E, s \in Ids, m \in Modes : SetRD(e, s, m)
 Next == \/ NRecv \/ NFlush \/ NOpenReturn \/ NOpenSend \/ NOpen \/ NAccept \/ NCancelOpen
         \/ NCloseWrite \/ NClose \/ NWrite \/ NRead
-        \/ NOpenExhausted \/ NWStart \/ NRStart \/ NWEnd \/ NREnd \/ NSetWD \/ NSetRD
+        \/ NOpenExhausted \/ NOpenBlocked \/ NOpenCancelled \/ NWStart \/ NRStart \/ NWEnd \/ NREnd \/ NSetWD \/ NSetRD
 
 Spec == Init /\ [][Next]_vars
 
